@@ -242,7 +242,8 @@ Proof.
   unfold parse_r6rs_char. apply ens_bind_any; [rk_solve|]. intros initial.
   destruct (initial =? 120).
   { apply ens_bind_any; [apply (sat_r6rs_char_hex_loop Rrk); rk_prim|]. intros o. destruct o as [n|].
-    - destruct (is_scalar n) eqn:E; [apply ens_ret; exact E|apply ens_err].
+    - unfold open_ended_char. destruct (is_scalar n) eqn:E; [apply ens_ret; exact E|].
+      destruct (is_surrogate n); [|apply ens_err]. apply ens_bind_any; [rk_solve|]. intros o2. destruct o2; apply ens_err.
     - apply ens_ret. reflexivity. }
   destruct (127 <? initial) eqn:Ehi.
   { unfold decode_utf8_sequence.
